@@ -52,6 +52,19 @@ class View:
         return f"View({self.obj!r}, {self.keys!r})"
 
 
+class OptRef:
+    """Optional[object]: `present` (a Bool term) and the object it denotes when present (e.g. what `_get_real` returns)."""
+
+    __slots__ = ("present", "ref")
+
+    def __init__(self, present, ref):
+        self.present = present
+        self.ref = ref
+
+    def __repr__(self):
+        return f"OptRef({self.present}, {self.ref!r})"
+
+
 class EnumVal:
     __slots__ = ("enum", "member")
 
